@@ -6,10 +6,7 @@ cd /verif
 one() {
   s=$1
   props=$(/venv/bin/python -c "import json;m=json.load(open('/verif/$s/meta.json'));print(' '.join(sorted(m.get('caught_by',{}).keys())))")
-  d=$(mktemp -d /tmp/sv-seed-XXXXXX)
-  git -C /repo archive HEAD pymablock | tar -x -C "$d"
-  cp /repo/pymablock/_version.py "$d/pymablock/" 2>/dev/null
-  if ! ( cd "$d" && patch -p1 -s < /verif/$s/patch.diff ) >/dev/null 2>&1; then echo "== $(basename $s): patch does not apply"; rm -rf "$d"; return; fi
+  d=$(/verif/tools/scratch_tree.sh /verif/$s/patch.diff 2>/dev/null) || { echo "== $(basename $s): patch does not apply"; return; }
   out="== $(basename $s) ($props)"
   for p in $props; do
     o=$(/venv/bin/python -m sv $p --repo "$d" --no-write 2>&1); code=$?
